@@ -1,5 +1,6 @@
 (* Proofs/PrimFacts.v — facts about the lib.rs wrappers (Model/AeadWrap.v) and their concrete RFC instance. *)
 From Kestrel Require Import Bytes BytesFacts Outcome Prims.
+From Kestrel.gen Require Import Extracted.
 From Kestrel.Model Require Import AeadWrap.
 From Kestrel.Spec Require Import Sha256 Hmac Hkdf HashFacts ChaPoly ChaPolyFacts Concrete.
 From Coq Require Import ZifyBool ZifyNat ZifyN.
@@ -53,6 +54,53 @@ Proof. intros Hk Hu Hz. unfold x25519. rewrite Hk, Hu. cbn [Nat.eqb negb]. now r
 Lemma derive_public_is_base_mult sk : length sk = 32%nat ->
   x25519_derive_public P sk = Ok (p_dh P sk base_point).
 Proof. intros H. unfold x25519_derive_public, dh_pub. now rewrite H. Qed.
+
+(* hkdf_sha256: the `derive_key(..).unwrap()` panics exactly for len = 0 and len > 8160 *)
+Lemma hkdf_sha256_ok salt ikm info len : (1 <= len <= 255 * 32)%nat ->
+  hkdf_sha256 P salt ikm info len = Ok (p_hkdf P salt ikm info len).
+Proof.
+  intros Hlen. unfold hkdf_sha256, hkdf_max_len.
+  destruct (Nat.eqb_spec len 0) as [H0|_]; [lia|].
+  destruct (Nat.ltb_spec (255 * 32) len) as [Hgt|_]; [lia|]. reflexivity.
+Qed.
+
+Lemma hkdf_sha256_panics salt ikm info len : (len = 0 \/ 255 * 32 < len)%nat ->
+  hkdf_sha256 P salt ikm info len = Panic PUnwrap.
+Proof.
+  intros Hlen. unfold hkdf_sha256, hkdf_max_len.
+  destruct (Nat.eqb_spec len 0) as [H0|Hn0]; [reflexivity|].
+  destruct (Nat.ltb_spec (255 * 32) len) as [Hgt|Hle]; [reflexivity|lia].
+Qed.
+
+Lemma hkdf_sha256_cases salt ikm info len :
+  hkdf_sha256 P salt ikm info len = Ok (p_hkdf P salt ikm info len) /\ (1 <= len <= 255 * 32)%nat \/
+  hkdf_sha256 P salt ikm info len = Panic PUnwrap /\ (len = 0 \/ 255 * 32 < len)%nat.
+Proof.
+  destruct (Nat.eq_dec len 0) as [H0|Hn0]; [right; split; [apply hkdf_sha256_panics|]; lia|].
+  destruct (Nat.le_gt_cases len (255 * 32)) as [Hle|Hgt].
+  - left. split; [apply hkdf_sha256_ok|]; lia.
+  - right. split; [apply hkdf_sha256_panics|]; lia.
+Qed.
+
+(* a value it returns has the requested length *)
+Lemma hkdf_sha256_length salt ikm info len out : hash_ok P ->
+  hkdf_sha256 P salt ikm info len = Ok out -> length out = len /\ (1 <= len <= 255 * 32)%nat.
+Proof.
+  intros HP H. destruct (hkdf_sha256_cases salt ikm info len) as [(E & Hr)|(E & _)]; rewrite E in H.
+  - injection H as <-. split; [apply (hkdf_len P HP); lia|exact Hr].
+  - discriminate H.
+Qed.
+
+(* kestrel's own two calls (encrypt.rs / decrypt.rs) pass the literal lengths carried by gen/Extracted.v;
+   there the wrapper is Ok of the primitive's value, which is why Model/Files.v calls [p_hkdf] directly *)
+Lemma hkdf_sha256_own_calls salt ikm info :
+  hkdf_sha256 P salt ikm info (N.to_nat x_enc_hkdf_len) = Ok (p_hkdf P salt ikm info (N.to_nat x_enc_hkdf_len)) /\
+  hkdf_sha256 P salt ikm info (N.to_nat x_dec_hkdf_len) = Ok (p_hkdf P salt ikm info (N.to_nat x_dec_hkdf_len)).
+Proof.
+  split; apply hkdf_sha256_ok.
+  - change (N.to_nat x_enc_hkdf_len) with 32%nat. lia.
+  - change (N.to_nat x_dec_hkdf_len) with 32%nat. lia.
+Qed.
 End Wrap.
 
 (* kestrel's own hkdf_noise is the first two blocks of RFC 5869 HKDF(salt = ck, ikm, info = "", 64) *)
@@ -66,3 +114,13 @@ Qed.
 Lemma hkdf_noise_lengths scr ck ikm :
   let '(a, b) := hkdf_noise (rfc_prims scr) ck ikm in length a = 32%nat /\ length b = 32%nat.
 Proof. unfold hkdf_noise. cbn [p_hmac rfc_prims]. split; apply hmac_length. Qed.
+
+(* on the RFC instance a returned value is RFC 5869 HKDF-SHA-256 of the requested length *)
+Lemma hkdf_sha256_is_rfc scr salt ikm info len out :
+  hkdf_sha256 (rfc_prims scr) salt ikm info len = Ok out ->
+  out = hkdf salt ikm info len /\ length out = len /\ (1 <= len <= 255 * 32)%nat.
+Proof.
+  intros H. destruct (hkdf_sha256_cases (rfc_prims scr) salt ikm info len) as [(E & Hr)|(E & _)]; rewrite E in H.
+  - injection H as <-. cbn [p_hkdf rfc_prims]. split; [reflexivity|]. split; [apply hkdf_length_le; lia|exact Hr].
+  - discriminate H.
+Qed.
